@@ -1,11 +1,9 @@
 (* C12 - str(query) is a faithful canonical form: it reparses to the same query.
 
-   C12_filter_free_roundtrip below proves the property for every query without filter selectors.
-   NOT proved for queries with filters (round trip, idempotence and grammar membership of the text are decided on
-   every generated query against the real code, and the text is compared with Model/Serialize.v):
-     C12_roundtrip  : forall cfg q, compiled cfg q -> lits_exact q ->
-                      exists q', m_compile cfg (m_str q) = Ok q' /\ same_modulo_default_step q' q
-     C12_idempotent : m_str q' = m_str q *)
+   C12_roundtrip below proves the property for every well-typed, in-range query - any nesting of !, &&, ||, comparisons,
+   function calls and embedded filters - whose literals are strings, booleans, null and integers that survive repr() and
+   float() (lx_query, a decidable condition: evaluated on every generated query by the check; FLOAT literals are not
+   covered by the theorem and stay with the correspondence).  C12_filter_free_roundtrip is the earlier special case. *)
 From JP Require Import Base.Json Model.Ast Model.Serialize Model.Api Spec.NormPath Spec.Sem Proofs.SerializeProofs Proofs.Reparse.
 
 (* Every query built from name, index, slice and wildcard selectors (any number per segment, at least one) in child and
@@ -25,6 +23,51 @@ Proof.
   - intros. apply sem_canon.
 Qed.
 Print Assumptions C12_filter_free_roundtrip.
+
+(* The general theorem.  For every registry and range (containing 1, the step str() prints for an omitted one) and every
+   well-typed, in-range query q that satisfies lx_query: the text str(q) lexes and parses - through Model/Serialize.v, the
+   whole state machine of Model/Lex.v including the filter state with its three stacks, and the Pratt parser of
+   Model/Parse.v - to q' = q with omitted slice steps made explicit; q' prints the identical text, compiles to itself, and
+   selects the same nodes as q on every value.  Proofs/ReparseF.v (lexer on canonical text, by induction on the syntax
+   tree, producing a derivation of the token-level grammar) + Proofs/ParseComplete.v (the parser on every derivable token
+   sequence). *)
+From JP Require Import Model.Parse Spec.Types Spec.Printable Proofs.ReparseF.
+Theorem C12_roundtrip : forall cfg q, in_range cfg 1 = true ->
+  wt_query (reg cfg) q = true -> ints_in_range (min_idx cfg) (max_idx cfg) q = true -> lx_query q = true ->
+  let q' := map cn_seg q in
+  m_compile cfg (m_str q) = Ok q' /\ m_str q' = m_str q /\ m_compile cfg (m_str q') = Ok q' /\
+  (forall rg rxf v, sem rg rxf q' v = sem rg rxf q v).
+Proof.
+  intros cfg q H1 Hw Hi Hl. cbv zeta. repeat split.
+  - apply compile_str_f; assumption.
+  - apply str_cn.
+  - rewrite str_cn. apply compile_str_f; assumption.
+  - intros. apply sem_cn.
+Qed.
+Print Assumptions C12_roundtrip.
+
+(* for whatever compile() returned (C05_sound supplies well-typedness and range) *)
+From JP Require Import Proofs.ParseTyped.
+Theorem C12_roundtrip_compiled : forall cfg text q, in_range cfg 1 = true -> m_compile cfg text = Ok q -> lx_query q = true ->
+  m_compile cfg (m_str q) = Ok (map cn_seg q) /\ m_str (map cn_seg q) = m_str q /\
+  (forall rg rxf v, sem rg rxf (map cn_seg q) v = sem rg rxf q v).
+Proof.
+  intros cfg text q H1 Ec Hl. destruct (compile_typed cfg text q Ec) as [Hw Hi].
+  destruct (C12_roundtrip cfg q H1 Hw Hi Hl) as (A & B & _ & D). repeat split; assumption.
+Qed.
+Print Assumptions C12_roundtrip_compiled.
+
+(* the hypotheses are satisfiable: the query of C12_example below, with count() registered *)
+Example C12_roundtrip_nonvacuous :
+  let rg := [([99; 111; 117; 110; 116]%N, {| f_args := [TNodes]; f_ret := TValue; f_impl := FCount |})] in
+  let cfg := {| min_idx := -9007199254740991; max_idx := 9007199254740991; max_depth := 100; reg := rg; rx := fun _ _ _ => false |} in
+  let q := [Child [SFilter (EAnd (ENot (ECmp OEq (ERel [Child [SName [97%N]]]) (ELit (JNum (NInt 1)))))
+                                 (EOr (ECmp OGt (ECall [99; 111; 117; 110; 116]%N [ERel [Child [SWild; SSlice None (Some 2) None]]]) (ELit (JStr [0%N; 39%N])))
+                                      (EAbs [Desc [SFilter (ERel [Child [SName [99%N]]])]])))]] in
+  in_range cfg 1 = true /\ wt_query (reg cfg) q = true /\ ints_in_range (min_idx cfg) (max_idx cfg) q = true /\ lx_query q = true /\
+  m_compile cfg (m_str q) = Ok (map cn_seg q).
+Proof. intros rg cfg q. assert (H : in_range cfg 1 = true /\ wt_query (reg cfg) q = true /\ ints_in_range (min_idx cfg) (max_idx cfg) q = true /\ lx_query q = true) by (vm_compute; repeat split; reflexivity).
+  destruct H as (A & B & C & D). split; [exact A|]. split; [exact B|]. split; [exact C|]. split; [exact D|]. apply compile_str_f; assumption. Qed.
 
 Example C12_filter_free_example :   (* $..['a', -1, 1::2, *]['\u0000'] *)
   let q := [Desc [SName [97%N]; SIndex (-1); SSlice (Some 1) None (Some 2); SWild]; Child [SName [0%N]]] in
